@@ -129,6 +129,7 @@ func (p *Parser) Err() error {
 // Next returns the next Grammar. It returns ErrorGrammar when an error was encountered. Using Err() one can retrieve the error message.
 func (p *Parser) Next() (GrammarType, TokenType, []byte) {
 	p.err = ""
+	p.initBuf() // Values() is for the last grammar only
 
 	if p.prevEnd {
 		p.tt, p.data = RightBraceToken, endBytes
